@@ -70,7 +70,10 @@ def check_case(case):
             v(comp_key(pat), "%s: kappa=%r outside [0,1] (known heuristic delta-max underestimate)" % (seq, k),
               kappa=k, orbit=ob)
         else:
-            v("kappa-out-of-range:" + ob, "%s: kappa=%r is neither -1 nor in [0,1]" % (seq, k), kappa=k, orbit=ob)
+            import hashlib
+            obk = ob if len(ob) <= 40 else "len%d:%s" % (len(ob), hashlib.sha1(ob.encode()).hexdigest()[:12])
+            v("kappa-out-of-range:" + obk, "%s: kappa=%r is neither -1 nor in [0,1]"
+              % (seq if len(seq) <= 80 else seq[:60] + "...(%d residues)" % len(seq), k), kappa=k, orbit=ob)
     # delta-max as seen AFTER get_kappa on the same object must still be the delta-max of a fresh object
     if k != -1 and k >= 1.0 and not case.get("fresh"):
         try:
@@ -127,6 +130,9 @@ def shard(s):
         for pat in spaces.window_complete_chunks(R.SYM, 6, s[1]):
             _consume(acc, R.spell_rotating(pat, len(pat)), False)
         return acc
+    if s[0] == "BIG":
+        _consume(acc, R.spell_rotating(BIG[s[1]], s[1]), False)
+        return acc
     if s[0] == "LOP":
         for pat in lopsided(s[1], s[2])[s[3]::s[4]]:
             _consume(acc, R.spell_rotating(pat, len(pat) % 2), False)
@@ -143,6 +149,11 @@ def shard(s):
             elif i >= hi:
                 break
     return acc
+
+
+# more than 256 residues of one class, arranged away from the maximally segregated form (kappa must stay within [0,1])
+BIG = ["-" * 150 + "000" + "-" * 150, "+" * 129 + "00" + "+" * 129, "+-" * 130 + "0" * 5 + "+-" * 20, "+" * 260 + "-" * 12 + "+" * 30,
+       "0" * 140 + "+" * 30 + "0" * 140 + "-" * 30, ("+" * 9 + "0") * 30, "-" * 100 + "0" * 17 + "-" * 160, "+" * 257 + "0" + "-" * 3]
 
 
 def lopsided(kind, tier):
@@ -197,6 +208,7 @@ def run(tier, seed, t0):
     sp, comps = sparse_shards(tier)
     shards += sp
     shards += [("LOP", kind, tier, i, 24) for kind in ("scatter", "block") for i in range(24)]
+    shards = [("BIG", i) for i in range(len(BIG))] + shards
     shards += [("DB", (L_,)) for L_ in ((23, 41) if tier == "quick" else (17, 23, 31, 41, 61, 97))]
     acc = core.pmap(shard, shards)
     if os.environ.get("VMC_C01_DUMP"):
@@ -207,7 +219,7 @@ def run(tier, seed, t0):
     return core.finish(
         PROP, tier, seed, acc, t0,
         rule="every charge pattern over {+,-,0} of length 1..%d in K/E/G spelling, plus ALL arrangements of %d sparse "
-             "compositions of total 10..20 (%s), plus lopsided neutral-free families (one minority residue at every position of a majority up to total 40/60, two at every pair up to 22/30; a minority block of 1..8 at offsets 0..6 inside a majority of 20..68/12..90; both signs), plus window-complete medium words; each state = one sequence, 3 real calls (get_kappa, get_delta, "
+             "compositions of total 10..20 (%s), plus lopsided neutral-free families (one minority residue at every position of a majority up to total 40/60, two at every pair up to 22/30; a minority block of 1..8 at offsets 0..6 inside a majority of 20..68/12..90; both signs), plus window-complete medium words, plus eight 260-340-residue patterns with more than 256 residues of one class; each state = one sequence, 3 real calls (get_kappa, get_delta, "
              "get_deltaMax; 6 with fresh-object repetition for length<=8) judged by clauses (a) -1 iff deltaMax==0, "
              "(b) kappa == clamp(delta/deltaMax), (c) kappa in {-1} U [0,1]; non-trivial = kappa != -1; outcomes = "
              "distinct kappa values" % (L, len(comps), "(1,n,1),(n,1,1),(1,1,n) slices" if tier == "quick"
